@@ -1,4 +1,5 @@
 import Pyxv.Proofs.ControlsLemmas
+import Pyxv.Model.TableList
 import Pyxv.Proofs.C04
 /-!
 # C04, second half — every body control carries the attributes its type and cells dictate
@@ -451,6 +452,257 @@ theorem body_controls_in_row_order (pre : List Str) (rows : List (Nat × RowK)) 
     (h : parseRows rows = .ok its) : (bodyCtlL pre its).map (·.1) = allRowTags rows := by
   rw [bodyCtlL_tags, body_order_is_row_order rows its h]
 
+/-! ### the attribute model and the structure model are one model -/
+
+theorem optCtl_tags (o : Option QData) : (optCtl o).map (·.1) = optTags o := by
+  cases o with
+  | none => rfl
+  | some d => simp only [optCtl, optTags]; split <;> simp
+
+theorem emitOut_tags (k : RowK) (r : Cells) (ps : Dict) : (emitOut k r ps).map (·.1) = rowTags k := by
+  cases k with
+  | q d other =>
+    simp only [emitOut, rowTags, List.map_append, optCtl_tags]
+    split <;> simp
+  | begin_ ct name b helper =>
+    cases ct <;> simp [emitOut, rowTags, headerTags, optCtl_tags]
+  | skip => rfl
+  | end_ ct => rfl
+  | bad e => rfl
+
+/-- **Per row, the attribute model emits exactly the controls of the row's classification**: whenever
+    `Controls.rowControls` answers, the row classifies (`Rows.classify` on the prepared cells) as some `k` and
+    the emitted element names are `rowTags k` — the controls the structure model places for that row. -/
+theorem rowControls_aligned (lists : List Str) (n : Nat) (r0 : Cells) (cs : List Controls.Ctl)
+    (h : rowControls lists n r0 = .ok cs) :
+    ∃ k, classify lists n (prep r0).1 = .row k ∧ cs.map (·.1) = rowTags k := by
+  unfold rowControls at h
+  simp only [] at h
+  split at h
+  · cases h
+  · split at h
+    · cases h
+    · rename_i k hk
+      split at h
+      · cases h
+      · split at h
+        · cases h
+        · split at h
+          · cases h
+          · injection h with h
+            subst h
+            exact ⟨k, hk, emitOut_tags _ _ _⟩
+
+theorem allControls_aligned (lists : List Str) : ∀ (rows : List Cells) (n : Nat) (cs : List Controls.Ctl)
+    (ks : List (Nat × RowK)), allControls lists n rows = .ok cs →
+    classifyAll lists n (rows.map fun r => (prep r).1) = .ok ks → cs.map (·.1) = allRowTags ks := by
+  intro rows
+  induction rows with
+  | nil =>
+    intro n cs ks h1 h2
+    simp [allControls] at h1; simp [classifyAll] at h2; subst h1; subst h2; rfl
+  | cons r rs ih =>
+    intro n cs ks h1 h2
+    simp only [allControls] at h1
+    simp only [List.map_cons, classifyAll] at h2
+    cases hr : rowControls lists n r with
+    | error f => rw [hr] at h1; cases h1
+    | ok c1 =>
+      rw [hr] at h1; simp only [] at h1
+      obtain ⟨k, hk, ht⟩ := rowControls_aligned lists n r c1 hr
+      rw [hk] at h2; simp only [] at h2
+      cases ha : allControls lists (n + 1) rs with
+      | error f => rw [ha] at h1; cases h1
+      | ok c2 =>
+        rw [ha] at h1; simp only [] at h1
+        cases hc : classifyAll lists (n + 1) (rs.map fun r => (prep r).1) with
+        | error w => rw [hc] at h2; cases h2
+        | ok k2 =>
+          rw [hc] at h2; simp only [] at h2
+          injection h1 with h1; injection h2 with h2
+          subst h1; subst h2
+          simp [allRowTags, ht, ih (n + 1) c2 k2 ha hc]
+
+/-- **One model** (`controls_aligned`): whenever the attribute pipeline and the structural pipeline both
+    answer for a sheet, the flat list of (element, attributes) the attribute model emits is aligned, element by
+    element, with the body control list (element, ref) of `Rows.formOut` — so `body_attrs_of_row` /
+    `control_iff_visible` speak about exactly the controls that `stack_refines_nest`, `refs_resolve` and
+    `body_controls_cover_paths` place in the tree. -/
+theorem controls_aligned (root : Str) (lists : List Str) (rows : List Cells) (settings : Cells)
+    (cs : List Controls.Ctl) (o : FormOut) (h1 : allControls lists 2 rows = .ok cs)
+    (h2 : formOut root lists (rows.map fun r => (prep r).1) settings = .ok o) :
+    cs.map (·.1) = o.ctl.map (·.1) := by
+  unfold formOut at h2
+  cases hc : classifyAll lists 2 (rows.map fun r => (prep r).1) with
+  | error w => rw [hc] at h2; simp at h2
+  | ok ks =>
+    rw [hc] at h2; simp only [] at h2
+    cases hp : parseRows ks with
+    | error e => rw [hp] at h2; simp at h2
+    | ok items =>
+      rw [hp] at h2; simp only [] at h2
+      split at h2
+      · simp at h2
+      · split at h2
+        · simp at h2
+        · split at h2
+          · simp at h2
+          · simp at h2; subst h2
+            simp only []
+            rw [body_controls_in_row_order _ ks items hp]
+            exact allControls_aligned lists rows 2 cs ks h1 hc
+
+theorem allControlsN_aligned (lists : List Str) : ∀ (rows : List (Nat × Cells)) (cs : List Controls.Ctl)
+    (ks : List (Nat × RowK)), allControlsN lists rows = .ok cs →
+    classifyNum lists (rows.map fun nr => (nr.1, (prep nr.2).1)) = .ok ks → cs.map (·.1) = allRowTags ks := by
+  intro rows
+  induction rows with
+  | nil =>
+    intro cs ks h1 h2
+    simp [allControlsN] at h1; simp [classifyNum] at h2; subst h1; subst h2; rfl
+  | cons r rs ih =>
+    intro cs ks h1 h2
+    obtain ⟨n, r⟩ := r
+    simp only [allControlsN] at h1
+    simp only [List.map_cons, classifyNum] at h2
+    cases hr : rowControls lists n r with
+    | error f => rw [hr] at h1; cases h1
+    | ok c1 =>
+      rw [hr] at h1; simp only [] at h1
+      obtain ⟨k, hk, ht⟩ := rowControls_aligned lists n r c1 hr
+      rw [hk] at h2; simp only [] at h2
+      cases ha : allControlsN lists rs with
+      | error f => rw [ha] at h1; cases h1
+      | ok c2 =>
+        rw [ha] at h1; simp only [] at h1
+        cases hc : classifyNum lists (rs.map fun nr => (nr.1, (prep nr.2).1)) with
+        | error w => rw [hc] at h2; cases h2
+        | ok k2 =>
+          rw [hc] at h2; simp only [] at h2
+          injection h1 with h1; injection h2 with h2
+          subst h1; subst h2
+          simp [allRowTags, ht, ih c2 k2 ha hc]
+
+/-- **One model, table-list groups included** (the pipeline the checks run, `controls.model`): the controls
+    the attribute model emits for the expanded sheet are aligned with the body control list of
+    `TableList.formOutT`. -/
+theorem controls_aligned_tl (root : Str) (lists : List Str) (rows : List Cells) (settings : Cells)
+    (cs : List Controls.Ctl) (o : FormOut) (h1 : allControlsN lists (TableList.sheetRows rows) = .ok cs)
+    (h2 : TableList.formOutT root lists rows settings = .ok o) :
+    cs.map (·.1) = o.ctl.map (·.1) := by
+  unfold TableList.formOutT at h2
+  split at h2
+  · cases h2
+  · rename_i o' ho
+    split at h2
+    · cases h2
+    · injection h2 with h2; subst h2
+      unfold formOutN at ho
+      cases hc : classifyNum lists ((TableList.sheetRows rows).map fun nr => (nr.1, (prep nr.2).1)) with
+      | error w => rw [hc] at ho; simp at ho
+      | ok ks =>
+        rw [hc] at ho; simp only [] at ho
+        cases hp : parseRows ks with
+        | error e => rw [hp] at ho; simp at ho
+        | ok items =>
+          rw [hp] at ho; simp only [] at ho
+          split at ho
+          · simp at ho
+          · split at ho
+            · simp at ho
+            · split at ho
+              · simp at ho
+              · simp at ho; subst ho
+                simp only []
+                rw [body_controls_in_row_order _ ks items hp]
+                exact allControlsN_aligned lists _ cs ks h1 hc
+
+/-! ### exactly one `jr:template` copy per repeat, at every depth -/
+
+mutual
+/-- number of `jr:template` nodes whose name satisfies `p`, anywhere in the tree -/
+def tmplCount (p : Str → Bool) : NT → Nat
+  | .node n t ks => (if t && p n then 1 else 0) + tmplCountL p ks
+def tmplCountL (p : Str → Bool) : List NT → Nat
+  | [] => 0
+  | k :: ks => tmplCount p k + tmplCountL p ks
+end
+
+mutual
+/-- number of repeats whose name satisfies `p`, anywhere in the element tree -/
+def repCount (p : Str → Bool) : Item → Nat
+  | .q _ => 0
+  | .sec .rep n _ ks => (if p n then 1 else 0) + repCountL p ks
+  | .sec .group _ _ ks => repCountL p ks
+  | .sec .loop _ _ ks => repCountL p ks
+def repCountL (p : Str → Bool) : List Item → Nat
+  | [] => 0
+  | k :: ks => repCount p k + repCountL p ks
+end
+
+theorem tmplCountL_append (p : Str → Bool) (a b : List NT) :
+    tmplCountL p (a ++ b) = tmplCountL p a + tmplCountL p b := by
+  induction a with
+  | nil => simp [tmplCountL]
+  | cons x xs ih => simp [tmplCountL, ih, Nat.add_assoc]
+
+theorem tmplKids_unfold_q (d : QData) (rest : List Item) :
+    tmplKids (.q d :: rest) = (if d.node then [NT.node d.name false []] else []) ++ tmplKids rest := by
+  simp [tmplKids]
+
+theorem tmplCountL_qnode (p : Str → Bool) (d : QData) :
+    tmplCountL p (if d.node then [NT.node d.name false []] else []) = 0 := by
+  split <;> simp [tmplCountL, tmplCount]
+
+mutual
+/-- inside the ordinary copy of a repeat no template is generated -/
+theorem no_template_in_copy (p : Str → Bool) (its : List Item) : tmplCountL p (instKids true its) = 0 := by
+  cases its with
+  | nil => simp [instKids, tmplCountL]
+  | cons it rest =>
+    cases it with
+    | q d => rw [instKids_unfold_q, tmplCountL_append, tmplCountL_qnode, no_template_in_copy p rest]
+    | sec ct n b ks =>
+      cases ct <;> simp [instKids, tmplCountL, tmplCount, no_template_in_copy p ks, no_template_in_copy p rest]
+end
+
+mutual
+theorem templates_in_template (p : Str → Bool) (its : List Item) :
+    tmplCountL p (tmplKids its) = repCountL p its := by
+  cases its with
+  | nil => simp [tmplKids, tmplCountL, repCountL]
+  | cons it rest =>
+    cases it with
+    | q d =>
+      rw [tmplKids_unfold_q, tmplCountL_append, tmplCountL_qnode, templates_in_template p rest]
+      simp [repCountL, repCount]
+    | sec ct n b ks =>
+      cases ct <;>
+        simp [tmplKids, tmplCountL, tmplCount, repCountL, repCount, templates_in_template p ks,
+          templates_in_template p rest, templates_top p ks]
+theorem templates_top (p : Str → Bool) (its : List Item) :
+    tmplCountL p (instKids false its) = repCountL p its := by
+  cases its with
+  | nil => simp [instKids, tmplCountL, repCountL]
+  | cons it rest =>
+    cases it with
+    | q d =>
+      rw [instKids_unfold_q, tmplCountL_append, tmplCountL_qnode, templates_top p rest]
+      simp [repCountL, repCount]
+    | sec ct n b ks =>
+      cases ct <;>
+        simp [instKids, tmplCountL, tmplCount, repCountL, repCount, templates_in_template p ks,
+          templates_top p ks, templates_top p rest, no_template_in_copy p ks, Nat.add_assoc]
+end
+
+/-- **One template per repeat, at every depth**: in the primary instance the number of `jr:template` nodes
+    named `nm` equals the number of repeats named `nm` in the element tree — for every tree, however the repeats
+    are nested in groups and in each other (a repeat reached through a group inside another repeat's template
+    still gets exactly one template copy; its ordinary copies get none). -/
+theorem one_template_per_repeat (root : Str) (its : List Item) (p : Str → Bool) :
+    tmplCount p (instanceOf root its) = repCountL p its := by
+  simp [instanceOf, tmplCount, templates_top]
+
 /-! ### Non-vacuity -/
 
 def exEntryText : List (String × String × String) := [("control", "tag", "input"), ("bind", "type", "string")]
@@ -491,5 +743,43 @@ example : (typeEntry "text".toList).isSome = true ∧
 example : (match parseRows exRows with
     | .ok its => tagsOfL its == allRowTags exRows && (allRowTags exRows).length == 8
     | .error _ => false) = true := by decide +kernel
+
+-- one model: a sheet with a parameterised text row, a repeat and a select inside it
+def exSheet : List Cells := [
+  [(k!"type", k!"text"), (k!"name", k!"a"), (k!"label", k!"A"), (k!"control::appearance", k!"multiline"),
+   (k!"parameters", k!"rows=3")],
+  [(k!"type", k!"begin repeat"), (k!"name", k!"r"), (k!"label", k!"R"), (k!"control::appearance", k!"field-list")],
+  [(k!"type", k!"select_one yn"), (k!"name", k!"s"), (k!"label", k!"S")],
+  [(k!"type", k!"calculate"), (k!"name", k!"c"), (k!"bind::calculate", k!"1")],
+  [(k!"type", k!"end repeat")]]
+
+example : (match allControls [k!"yn"] 2 exSheet,
+                 formOut (k!"data") [k!"yn"] (exSheet.map fun r => (prep r).1) [] with
+    | .ok cs, .ok o => cs.map (·.1) == o.ctl.map (·.1) && cs.length == 4 &&
+        cs.head? == some (k!"input", [(k!"appearance", k!"multiline"), (k!"rows", k!"3")])
+    | _, _ => false) = true := by decide +kernel
+
+-- templates: repeat r holds group g holding repeat r2 (the nesting of seeded C04-4): one template each
+def exNested : List Item :=
+  [.sec .rep (k!"r") false [.q (q "a"), .sec .group (k!"g") false [.sec .rep (k!"r2") false [.q (q "b")]]]]
+example : tmplCount (fun _ => true) (instanceOf (k!"data") exNested) = 2 ∧
+    tmplCount (· == k!"r2") (instanceOf (k!"data") exNested) = 1 ∧ repCountL (· == k!"r2") exNested = 1 := by
+  decide +kernel
+
+-- a table-list group with a label: the generated note and header select appear, appearances are rewritten
+def exTL : List Cells := [
+  [(k!"type", k!"begin group"), (k!"name", k!"t"), (k!"label", k!"T"), (k!"control::appearance", k!"table-list minimal")],
+  [(k!"type", k!"select_one yn"), (k!"name", k!"s1"), (k!"label", k!"S1")],
+  [(k!"type", k!"select_one yn"), (k!"name", k!"s2"), (k!"label", k!"S2"), (k!"control::appearance", k!"w1")],
+  [(k!"type", k!"end group")]]
+
+example : (match allControlsN [k!"yn"] (TableList.sheetRows exTL), TableList.formOutT (k!"data") [k!"yn"] exTL [] with
+    | .ok cs, .ok o => cs.map (·.1) == o.ctl.map (·.1) &&
+        cs == [(k!"group", [(k!"appearance", k!"field-list minimal")]), (k!"input", []),
+               (k!"select1", [(k!"appearance", k!"label")]), (k!"select1", [(k!"appearance", k!"list-nolabel")]),
+               (k!"select1", [(k!"appearance", k!"list-nolabel")])] &&
+        o.body.map xpathStr == [k!"/data/t", k!"/data/t/generated_table_list_label_2",
+          k!"/data/t/reserved_name_for_field_list_labels_3", k!"/data/t/s1", k!"/data/t/s2"]
+    | _, _ => false) = true := by decide +kernel
 
 end Pyxv.C04
